@@ -21,6 +21,7 @@ fn main() {
         scale_pct: get("--scale", "100").parse().expect("scale"),
         replay: args.iter().position(|a| a == "--replay").and_then(|i| args.get(i + 1)).cloned(),
         tiny: args.iter().any(|a| a == "--tiny"),
+        shard: args.iter().position(|a| a == "--shard").map(|i| (args[i + 1].parse().expect("shard"), get("--of", "1").parse().expect("of"))),
     };
     mon::drive::install_panic_hook();
     if args.iter().any(|a| a == "--exec") {
